@@ -1,0 +1,42 @@
+//go:build verif
+
+package lookups
+
+// C19 (confinement of client-supplied names), as a sanitiser discipline:
+// strings are opaque to the verifier, so `safeName(s)` ("no separator, no
+// dot-dot, not absolute, not empty") and `confined(p)` are uninterpreted
+// predicates.  safeName is established only by the validator below;
+// filepath.Join(trusted directory, safe name) is confined (assumed, see
+// /verif/spec/stdlib.assumed); every file-system call of the handlers must
+// be made on a confined path.  Checked by /verif/bin/govc.  Comment-only.
+
+// The validator's meaning is a string-level fact: ASSUMED.
+//@ func isSafeLookupName
+//@   assumed
+//@   pure
+//@   ensures implies(result, uf("safeName", bool, name))
+//@ end
+
+//@ func UploadLookupFile
+//@   props C19
+//@   site call os.MkdirAll #1:
+//@     assert [dir-trusted] uf("trustedDir", bool, arg0)
+//@   site call os.Stat #1:
+//@     assert [stat-confined] uf("confined", bool, arg0)
+//@   site call os.OpenFile #1:
+//@     assert [open-confined] uf("confined", bool, arg0)
+//@   site call os.Create #1:
+//@     assert [create-confined] uf("confined", bool, arg0)
+//@ end
+
+//@ func GetLookupFile
+//@   props C19
+//@   site call os.Open #1:
+//@     assert [open-confined] uf("confined", bool, arg0)
+//@ end
+
+//@ func DeleteLookupFile
+//@   props C19
+//@   site call os.Remove #1:
+//@     assert [remove-confined] uf("confined", bool, arg0)
+//@ end
